@@ -93,7 +93,40 @@ fn main() {
         if rng.chance(1, 3) {
             texts.push(format!("{}\0{}", texts[0], "x"));
         }
+        // width variants right after each other: different originals with the same normalised form
+        let mut seq: Vec<String> = vec![];
+        for t in &texts {
+            seq.push(t.clone());
+            if rng.chance(1, 2) {
+                seq.push(KyteaFullwidthFilter.filter(t.as_str()));
+                if rng.chance(1, 2) {
+                    seq.push(t.clone());
+                }
+            }
+        }
+        seq.push("123456円abc".to_string());
+        seq.push("１２３４５６円ａｂｃ".to_string());
+        let texts = seq;
         let via_serialised = rng.chance(1, 3);
+        // ONE tokenizer object serves all texts of the case, as an indexer would use it
+        let reuse = rng.chance(2, 3);
+        let shared = guard(|| -> Result<VaporettoTokenizer, String> {
+            let (model, _) = Model::read_slice(&bytes).map_err(|e| format!("{e}"))?;
+            if via_serialised {
+                let p = Predictor::new(model, false).map_err(|e| format!("{e}"))?;
+                let ser = p.serialize_to_vec().map_err(|e| format!("{e}"))?;
+                // the serialised bytes must outlive the tokenizer only during construction
+                let (t, _) = unsafe { VaporettoTokenizer::deserialize_unchecked(&ser, &wsconst) }.map_err(|e| format!("{e}"))?;
+                Ok(t)
+            } else {
+                VaporettoTokenizer::new(model, &wsconst).map_err(|e| format!("{e}"))
+            }
+        });
+        let mut shared = match shared {
+            Ok(Ok(t)) => Some(t),
+            _ => None,
+        };
+        ctx.flag("cases_reusing_one_tokenizer_for_all_texts", reuse && shared.is_some());
         for text in &texts {
             let detail = |extra: Vec<(&str, J)>| {
                 let mut kv = vec![("text", J::s(clip(text, 200))), ("wsconst", J::s(&wsconst)), ("model_hex", J::hex(&bytes[..bytes.len().min(4096)])), ("model", J::s(case.model.summary()))];
@@ -101,6 +134,22 @@ fn main() {
                 J::obj(kv)
             };
             let r = guard(|| -> Result<Vec<Tok>, String> {
+                if reuse {
+                    if let Some(tk) = shared.as_mut() {
+                        let mut st = tk.token_stream(text);
+                        let mut out = vec![];
+                        let mut guard_n = 0;
+                        while st.advance() {
+                            let t = st.token();
+                            out.push(Tok { from: t.offset_from, to: t.offset_to, text: t.text.clone(), position: t.position });
+                            guard_n += 1;
+                            if guard_n > text.len() + 2 {
+                                return Err("token stream does not terminate".into());
+                            }
+                        }
+                        return Ok(out);
+                    }
+                }
                 let (model, _) = Model::read_slice(&bytes).map_err(|e| format!("{e}"))?;
                 let mut tk = if via_serialised {
                     let p = Predictor::new(model, false).map_err(|e| format!("{e}"))?;
